@@ -93,7 +93,8 @@ CHECKS = {
         text=("The reference (H5Tree + Container) is deterministic in its user-visible part, so two drivers that are both traces of it "
               "agree; the same generated sequence is executed in lock step on h5py.File, IH5Record and IH5MFRecord with independent "
               "random patch boundaries and reopen points, each driver is validated against the reference and TLC evaluates the "
-              "three-way clause drivers_agree on every step."),
+              "three-way clause drivers_agree on every step; data-level histories (random and few-paths-rewritten-often) additionally "
+              "run through MetadorContainer on each of the three drivers and are validated by Trace_IH5 against H5Tree."),
         technique="Trace validation of lock-step executions on three drivers against one deterministic TLA+ reference + three-way agreement clause",
         design="4/C09"),
     "C20": dict(
@@ -119,7 +120,11 @@ CHECKS = {
               "outcome of every pair; each pair is rebuilt on two real model families (MetadataSchema partials and a plain pydantic "
               "PartialFactory with '' and 0.0) in randomly chosen production ways (constructed, parsed from dict/JSON/YAML, "
               "to_partial of complete objects), merged and compared; operands are checked for mutation; random triples and the "
-              "to_partial/from_partial round trip are checked on real objects."),
+              "to_partial/from_partial round trip are checked on real objects. The harvest pipeline is part of the specification "
+              "(Harvest = left fold of Merge, first conflict aborts, empty sources neutral, lossless; checked for all triples) and "
+              "strided triples are replayed through the real harvest() with harvester instances, metadata files, side-car loaders and "
+              "configured file-harvester pipelines as sources; the degenerate classes (partial of a factory's base model, field-less "
+              "classes) are checked separately."),
         technique="TLA+ merge algebra checked exhaustively by TLC + exported expected outcomes replayed on real partial models",
         design="4/C14"),
     "C18": dict(
@@ -140,11 +145,13 @@ CHECKS = {
         technique="TLA+ hash-tree specification checked by TLC over all pairs + enumerated trees materialised on disk and compared",
         design="4/C19"),
     "C15": dict(
-        text=("ContainerAcl.tla is a finite state machine over wrapper states (node, flags, local root, object handed out by parent); "
-              "TLC generates every navigation chain (lookups, listings, visits, query results, parent, restrict) up to the bound from "
-              "every start node and flag combination of a fixture container, checks that flags only grow and local-only wrappers stay "
-              "below their local root, and exports the expected node/flags per step and the expected outcome of every mutating, reading "
-              "and upward attempt; every chain is executed on real wrappers on both drivers, refusals must leave the raw container unchanged."),
+        text=("ContainerAcl.tla is a state machine whose states are navigation chains over wrapper states (node, flags, local root, "
+              "object handed out by parent), one primitive (lookups, listings, visits, query results, parent, restrict) per step from "
+              "every start node and flag combination of a fixture container; TLC checks for all chains up to a deep bound that flags "
+              "only grow and local-only wrappers stay below their local root (the rule of the pinned code, kept as a mutant, must be "
+              "rejected), and prints the chains up to a smaller bound with the expected node/flags per step and the expected outcome "
+              "of every mutating, reading and upward attempt; these are executed on real wrappers on both drivers, refusals must leave "
+              "the raw container unchanged."),
         technique="TLA+ navigation state machine enumerated by TLC + replay of every chain and attempt on the real wrappers (both drivers)",
         design="4/C15"),
     "C17": dict(
@@ -161,7 +168,8 @@ CHECKS = {
               "constants always dumped / ignored on load, None-as-missing; TLC checks the laws for every (shape, instance) and exports "
               "them; each is built as a real MetadataSchema subclass with values from boundary pools and JSON/bytes/YAML round trips, "
               "key structure and constant handling are compared with the specification, also for instances derived from an already "
-              "serialised one; installed schema plugins are round-tripped with hand-written valid instances. The model decides the "
+              "serialised one; installed schema plugins are round-tripped with hand-written instances and with instances generated from "
+              "their field types (values given as text or as objects). The model decides the "
               "structure; number/YAML formatting fidelity is decided only for the values in the pools."),
         technique="TLA+ codec laws over an enumerated type grammar (TLC) + every enumerated (shape, instance) concretised on real schema classes",
         design="4/C12, 6",
